@@ -13,7 +13,8 @@ RULE = ("C03 systems with mixed residue sizes in cubic and rectangular boxes fro
         "inside [0,L)^3; a residue-graph neighbour already positioned at minimum-image distance step_factor * "
         "mean size (rel 1e-9) unless it is a start placement, which must be a row of the start grid; no positioned "
         "residue within 0.1 nm; brute-force minimum-image 12-6 force from positioned non-neighbours inside the "
-        "cut-off <= max force. non-trivial = >=1 accepted step that crosses a box face and >=2 residue sizes; "
+        "cut-off <= max force. One case in forty supplies 5001-5600 single-bead molecules so that the engine "
+        "keeps its placements in a second neighbour tree. non-trivial = >=1 accepted step that crosses a box face and >=2 residue sizes; "
         "distinct = spec hash")
 ASSUMPTIONS = ["residue sizes are the values in Topology.volumes for the residue's template key (captured)",
                "the cut-off is the engine's own (twice the largest size)", "time-outs are inconclusive"]
@@ -38,9 +39,40 @@ def _rings(draw):
 
 
 @st.composite
+def _large(draw):
+    """more than 5000 supplied single-bead molecules (the engine then keeps the residues it places in a
+    second neighbour tree) below a free slab in which one to three chains are built with a low force limit"""
+    n = draw(st.integers(5001, 5600))
+    w = {"resname": "W", "atoms": [{"name": "w", "type": "TB", "mass": 72.0}], "bonds": [], "vs": None}
+    ra = {"resname": "RA", "atoms": [{"name": "a1", "type": "TA", "mass": 72.0}], "bonds": [], "vs": None}
+    length = draw(st.integers(3, 8))
+    sol = {"name": "SOL", "residues": [w], "res_edges": [], "shape": "linear"}
+    ma = {"name": "MA", "residues": [ra] * length, "res_edges": [[i, i + 1] for i in range(length - 1)], "shape": "linear"}
+    return {"rng": draw(st.integers(0, 2**31 - 1)), "comb": 2,
+            "atomtypes": [{"name": "TA", "mass": 72.0, "sigma": 0.47, "eps": 2.0},
+                          {"name": "TB", "mass": 72.0, "sigma": draw(st.sampled_from([0.43, 0.47])), "eps": 2.0}],
+            "moltypes": [sol, ma], "molecules": [["SOL", n], ["MA", draw(st.integers(1, 3))]],
+            "opts": {"box": [10.0, 10.0, 10.0], "max_force": draw(st.sampled_from([300.0, 1000.0]))},
+            "build": None, "coords": None, "fill": n}
+
+
+def _fill(spec):
+    """coordinates of the spec["fill"] supplied beads: a 0.5 nm lattice filled layer by layer from z = 0"""
+    n = spec["fill"]
+    atoms = []
+    for k in range(n):
+        ix, iy, iz = k % 20, (k // 20) % 20, k // 400
+        atoms.append([1, "W", "w", [round(0.25 + 0.5 * ix, 3), round(0.25 + 0.5 * iy, 3), round(0.25 + 0.5 * iz, 3)]])
+    total = n + sum(c * len(mt["residues"]) for mt in spec["moltypes"] for nm, c in spec["molecules"] if nm == mt["name"] and nm != "SOL")
+    return dict(spec, coords={"mode": "c", "nres": n, "atoms": atoms, "box": list(spec["opts"]["box"]), "total_res": total})
+
+
+@st.composite
 def _strategy(draw):
     if draw(st.integers(0, 7)) == 0:
         return draw(_rings())
+    if draw(st.integers(0, 39)) == 0:
+        return draw(_large())
     spec = draw(gc.system(max_res=8, max_total_mol=5))
     by_name = {mt["name"]: mt for mt in spec["moltypes"]}
     nres = sum(cnt * len(by_name[name]["residues"]) for name, cnt in spec["molecules"])
@@ -77,6 +109,9 @@ def min_image(vec, box):
 
 def check(spec, ctx):
     from polyply.src.graph_utils import neighborhood
+    if spec.get("fill"):
+        spec = _fill(spec)
+        ctx.label("second_neighbour_tree")
     opts = spec["opts"]
     sf = opts.get("step_fudge", 1.0)
     max_force = opts.get("max_force", 5e4)
@@ -142,7 +177,7 @@ def check(spec, ctx):
         if float(np.linalg.norm(total)) > max_force * (1 + 1e-9):
             raise Violation("force_above_limit", f"residue ({mol_idx},{node}) accepted with |F|={np.linalg.norm(total):.4g} > {max_force}")
 
-    res = gc.run_gen_coords(spec, ctx, on_add=on_add)
+    res = gc.run_gen_coords(spec, ctx, on_add=on_add, timeout=60 if spec.get("fill") else 15)
     if res.exc is not None:
         if isinstance(res.exc, Violation):
             raise res.exc
